@@ -1,5 +1,6 @@
 import DimodModel.Pack
 import DimodModel.CooText
+import DimodModel.BytesDoc
 import DimodModel.Wire
 open Wire SSM Pack
 
@@ -145,6 +146,20 @@ def step (line : String) : String :=
   | ["tobytes", size, signed, vals] => match size.toNat?, (splitOr "," vals).mapM (·.toInt?) with
     | some sz, some vs => "ok " ++ listOr "," toString (tobytesInt ⟨sz, signed = "1"⟩ vs)
     | _, _ => "bad-op"
+  | ["bytesdoc", size, signed, shape, vals, ub, drop] =>
+    -- the whole dict of `serialize_ndarray(arr, use_bytes)` and what `deserialize_ndarray` makes of it (after dropping `drop` trailing bytes)
+    match size.toNat?, parseNats? shape, (splitOr "," vals).mapM (·.toInt?), drop.toNat? with
+    | some sz, some sh, some vs, some dr =>
+      let doc := serializeArrDoc ⟨⟨sz, signed = "1"⟩, sh, vs⟩ (ub = "1")
+      let doc' : ArrDoc := match doc.data with
+        | .bytes b => { doc with data := .bytes (b.take (b.length - dr)) }
+        | .list _ => doc
+      let payload := match doc.data with | .bytes b => "B" ++ listOr "," toString b | .list v => "L" ++ showPV v
+      let back := match deserializeArrDoc doc' with
+        | some a => "some " ++ listOr "," toString a.shape ++ " " ++ listOr "," toString a.data
+        | none => "none"
+      s!"ok type={doc.type} size={doc.dataType.size} signed={if doc.dataType.signed then 1 else 0} shape={listOr "," toString doc.shape} use_bytes={if doc.useBytes then 1 else 0} data={payload} back={back}"
+    | _, _, _, _ => "bad-op"
   | ["frombytes", size, signed, count, bytes] => match size.toNat?, count.toNat?, parseNats? bytes with
     | some sz, some c, some bs => "ok " ++ listOr "," toString (frombufferInt ⟨sz, signed = "1"⟩ bs c)
     | _, _, _ => "bad-op"
